@@ -403,7 +403,8 @@ def main(chk: Check) -> None:
         chk.broken("translator", "C01/Gen.v", str(e))
     chk.forbidden_scan()
     if chk.coq_make(["C01/Proofs.vo", "C01/Extract.vo"]):
-        chk.audit_props("C01/Props.v")
+        if chk.audit_props("C01/Props.v") and chk.tier == "thorough":
+            chk.coqchk(["Wz.C01.Props"])
     else:
         chk.cov["obligations"] += 1
     chk.trusted += [
